@@ -5,6 +5,7 @@ From Coq Require Import ZArith NArith List String.
 Import ListNotations.
 Require Import Verif.lib.PyLite Verif.lib.Regex Verif.lib.RegexProofs Verif.lib.FurlPrim Verif.gen.FurlGen Verif.lib.Utf8 Verif.lib.Furl Verif.lib.FurlProofs.
 Require Import Verif.lib.Connector Verif.lib.ConnectorProofs Verif.lib.ConnectAll Verif.lib.ConnectAllProofs.
+Require Import Verif.lib.TorState Verif.lib.TorStateProofs.
 Local Open Scope Z_scope.
 
 (* "Parsing a FURL either yields (tub id, hints, name) ... or raises the documented bad-FURL error".
@@ -145,6 +146,47 @@ Theorem C20_builtin_handler_exceptions : forall nonpublic kd hint e,
   e = "InvalidHintError"%string \/ (e = "TypeError"%string /\ I2P_POPS_PORT = false /\ exists d, kd = KI2p (Some d)).
 Proof. exact (builtin_exceptions I2P_POPS_PORT). Qed.
 Print Assumptions C20_builtin_handler_exceptions.
+
+(* "Classifying a connection hint always terminates ... and ends in an endpoint or the documented invalid-hint error",
+   for a Tor handler whose Tor is NOT there: the handler (connections/tor.py _Common.hint_to_endpoint, its five steps in
+   the order translated from the source) run against a Tor that is ready / still starting / fails with any exception.
+   The classification is by the string alone -- with a ready Tor the handler is the classification of C20_hint_total ... *)
+Theorem C20_tor_ready_is_classification : forall nonpublic hint,
+  tor_handler nonpublic TorReady hint = Done (tor_hint_to_endpoint nonpublic hint).
+Proof. exact tor_ready_is_classification. Qed.
+Print Assumptions C20_tor_ready_is_classification.
+
+(* ... a hint that is rejected is rejected at once whatever the Tor does: no waiting for a launch that may take for
+   ever, no launch / connection error in place of InvalidHintError ... *)
+Theorem C20_tor_invalid_whatever_tor : forall nonpublic st hint,
+  tor_hint_to_endpoint nonpublic hint = Exc "InvalidHintError" -> tor_handler nonpublic st hint = Done (Exc "InvalidHintError").
+Proof. exact tor_invalid_whatever_tor. Qed.
+Print Assumptions C20_tor_invalid_whatever_tor.
+
+(* ... every outcome, for all hints and all states of the Tor: the outcome is a function of (classification, Tor); it is
+   `Waiting` / the Tor's own exception only for a hint that IS an endpoint once the Tor is there ... *)
+Theorem C20_tor_outcome_table : forall nonpublic st hint,
+  tor_handler nonpublic st hint =
+  match tor_hint_to_endpoint nonpublic hint with
+  | Ok ep => match st with TorReady => Done (Ok ep) | TorStarting => Waiting | TorFails e => Done (Exc e) end
+  | Exc _ => Done (Exc "InvalidHintError")
+  end.
+Proof. exact tor_outcome_table. Qed.
+Print Assumptions C20_tor_outcome_table.
+
+Theorem C20_tor_exception_origin : forall nonpublic st hint e,
+  tor_handler nonpublic st hint = Done (Exc e) -> e = "InvalidHintError"%string \/ st = TorFails e.
+Proof. exact tor_exception_origin. Qed.
+Print Assumptions C20_tor_exception_origin.
+
+(* ... and the order of the steps matters (regression, seeded change C20-r6s1): were the handler to get its Tor going
+   before it looks at the hint, an invalid hint would wait as long as the Tor takes and end in the Tor's exception *)
+Theorem C20_tor_wait_first_refuted : exists nonpublic hint,
+  tor_hint_to_endpoint nonpublic hint = Exc "InvalidHintError" /\
+  tor_handler_gen TOR_STEPS_WAIT_FIRST nonpublic TorStarting hint = Waiting /\
+  tor_handler_gen TOR_STEPS_WAIT_FIRST nonpublic (TorFails "RuntimeError") hint = Done (Exc "RuntimeError").
+Proof. exact tor_wait_first_refuted. Qed.
+Print Assumptions C20_tor_wait_first_refuted.
 
 (* "... always terminates in time proportional to its length": for each of the four translated hint
    patterns, applied the way the source applies it, the backtracking matcher takes at most
